@@ -15,10 +15,13 @@ def run(args):
                        "with marker prints before/after and a second use of locals, try and a loop afterwards; "
                        "expected output/outcome from HmsSem; non-trivial = distinct program texts" % (3 if thorough else 2))
     progs = Fam.nestings(3 if thorough else 2, rnd, sample=None)
+    # exits of a function which also makes function values: the literal's own exits (NestGen context `lit`) and the exits of the
+    # enclosing function after the literal
+    progs += Fam.lambda_programs()
     backends = ("vm", "tree")
     results, cases, rendered = sem.run_programs(progs, rep, backends=backends)
     for p in rnd.sample([q for q in progs if q["id"] in rendered], 3):
-        rep.sample({"ctxs": p["feats"]["ctxs"], "exit": p["feats"]["exit"], "program": rendered[p["id"]][0][:1500],
+        rep.sample({"ctxs": p["feats"].get("ctxs"), "exit": p["feats"].get("exit"), "program": rendered[p["id"]][0][:1500],
                     "expected_status": cases[p["id"]]["status"]})
     rep.cov["exhaustive"] = True
     return rep.finish()
